@@ -644,6 +644,11 @@ def scenario_pool_rerun(cx, rng, ndisks=2, share=None):
     tree.symlink(0, b'keep/l\nnk', b'a\nb')
     moved_ns = (now + 9) * 10 ** 9 + 123
     tree.write(0, b'keep/moved:m', b'M' * 1700, moved_ns)
+    # names starting with a dot, at the top, inside dot directories and inside ordinary ones
+    dot_ns = (now + 20) * 10 ** 9 + 77
+    for k, nm in enumerate([b'.profile', b'.cache/deep/blob', b'sub/.keep', b'.config/app.ini', b'.config/stay', b'..twodots', b'.d/.e/.f']):
+        tree.write(0, nm, bytes([97 + k]) * (300 + k), dot_ns + k)
+    tree.symlink(0, b'.hidden link', b'.profile')
     rc, out, logb, err = tool(cx.exe, tree, ['sync'])
     walked = [(n, ) + walk_disk(d) for n, d in tree.disks]
     pb = os.fsencode(tree.pool)
@@ -659,6 +664,13 @@ def scenario_pool_rerun(cx, rng, ndisks=2, share=None):
     # rebalancing: the file goes to another data disk, same relative path, same time stamp
     os.makedirs(os.path.dirname(tree.path(ndisks - 1, b'keep/moved:m')), exist_ok=True)
     os.rename(tree.path(0, b'keep/moved:m'), tree.path(ndisks - 1, b'keep/moved:m'))
+    os.makedirs(os.path.dirname(tree.path(ndisks - 1, b'.config/app.ini')), exist_ok=True)
+    os.rename(tree.path(0, b'.config/app.ini'), tree.path(ndisks - 1, b'.config/app.ini'))      # dot directory, moved with its time stamp
+    os.remove(tree.path(0, b'.profile'))
+    os.remove(tree.path(0, b'.hidden link'))
+    shutil.rmtree(tree.path(0, b'.cache'))
+    shutil.rmtree(tree.path(0, b'.d'))
+    os.remove(tree.path(0, b'sub/.keep'))
     assert os.lstat(tree.path(ndisks - 1, b'keep/moved:m')).st_mtime_ns == moved_ns
     shutil.rmtree(tree.path(0, b'only'))
     os.remove(tree.path(0, b'keep/l\nnk'))
@@ -870,6 +882,61 @@ def scenario_status_space(cx, rng):
         verify_status(cx, tree, 'w_installed%d' % k, None)
 
 
+def scenario_dup_hashsize(cx, rng, hasher):
+    """reduced hash size (hashsize 2): the whole-file digest dup compares is still 16 bytes.  Two different files whose digests
+    agree on the first 2 bytes (found with the tool's own hash function) must not be reported; real duplicates must"""
+    hs = 2
+    root = mkscratch('c20h.')
+    tree = Tree(root, 2, hashsize=hs)
+    tree.write(0, b'seedfile', b's' * 1500, 1500000000 * 10 ** 9 + 1)
+    rc, out, logb, err = tool(cx.exe, tree, ['sync'])
+    if rc != 0:
+        cx.bad('hs_sync', 'sync with hashsize %d exits %d' % (hs, rc), {'stderr': err[-600:].decode('latin1')})
+        return
+    st = c20c.load(os.path.join(tree.root, 'content'))
+    kind, seed = st['hash'], st['seed'].hex()
+    N = 1300
+    cands = [bytes(rng.getrandbits(8) for _ in range(2 * BLOCK + 300)) for _ in range(N)]
+    blocks = [b for c in cands for b in blocks_of(c)]
+    bh = [bytes.fromhex(o.strip())[:hs] for o in run_lines(hasher, ['%s %s %s' % (kind, seed, b.hex()) for b in blocks])]
+    bufs = [b''.join(bh[3 * i:3 * i + 3]) for i in range(N)]
+    digs = [bytes.fromhex(o.strip()) for o in run_lines(hasher, ['%s %s %s' % (kind, seed, b.hex()) for b in bufs])]
+    byp = {}
+    pairs = []
+    used = set()
+    for i in range(N):
+        if bufs.count(bufs[i]) > 1:
+            continue
+        j = byp.setdefault(digs[i][:hs], i)
+        if j != i and digs[j] != digs[i] and j not in used and i not in used:
+            pairs.append((j, i))
+            used.update((i, j))
+    pairs = pairs[:3]
+    cx.chk.cov['dup_hashsize2_truncated_digest_collision_pairs'] = len(pairs)
+    if not pairs:
+        cx.chk.notes.append('no pair of files with whole-file digests agreeing on %d bytes found among %d candidates: hashsize dup case skipped' % (hs, N))
+        return
+    chosen = [x for p_ in pairs for x in p_]
+    others = [i for i in range(N) if i not in used and bufs.count(bufs[i]) == 1][:12]
+    for k, i in enumerate(chosen):
+        tree.write(k % 2, b'coll%d_%d' % (k // 2, k % 2), cands[i], (1500000100 + k) * 10 ** 9 + 5)
+    for k, i in enumerate(others):
+        tree.write(k % 2, b'other%d' % k, cands[i], (1500000200 + k) * 10 ** 9 + 5)
+    tree.write(1, b'true copy', cands[chosen[0]], 1500000300 * 10 ** 9 + 9)       # a real duplicate of coll0_0
+    tree.write(0, b'true copy 2', cands[others[0]], 1500000301 * 10 ** 9 + 9)
+    rc, out, logb, err = tool(cx.exe, tree, ['sync'])
+    walked = content_order([(n, [f for f in fs if f[0] == b'seedfile'], []) for n, fs, ls in [(n, ) + walk_disk(d) for n, d in tree.disks]],
+                           verify_list(cx, tree, 'hs_list'))
+    # the recorded block hashes are the first hs bytes of the tool's hash, as assumed when searching
+    st = c20c.load(os.path.join(tree.root, 'content'))
+    rec = {f['sub']: b''.join(h for s_, p_, h in f['blocks']) for d in st['disks'].values() for f in d['files']}
+    if rec.get(b'coll0_0') != bufs[chosen[0]]:
+        cx.chk.notes.append('recorded block hashes at hashsize %d are not the truncated tool hashes: the collision pair may not collide' % hs)
+    verify_dup(cx, tree, 'hs_dup', walked)
+    if len(cx.samples) < 12:
+        cx.samples.append({'cmd': 'dup', 'hashsize': hs, 'pairs_with_equal_digest_prefix': [[digs[a].hex(), digs[b].hex()] for a, b in pairs]})
+
+
 def scenario_zerosub_many(cx):
     """more than 50 files with a zero sub-second stamp on one disk: the 50th line says (more follow), later ones are not logged"""
     root = mkscratch('c20m.')
@@ -1007,6 +1074,8 @@ def main(tier, replay=None):
     try:
         drv = build_driver(snap, 'c20_drv.c', ['cmdline/support.c'], 'c20_drv')
         exe = build_tool(snap)
+        hasher = build_driver(snap, 'hash_drv.c', ['cmdline/util.c', 'cmdline/stream.c', 'cmdline/support.c', 'cmdline/elem.c', 'cmdline/unix.c', 'raid/memory.c', 'tommyds/tommy.c'],
+                              'hash_drv', libs=['-lblkid'])
     except BuildError as e:
         chk.violation('build', 'working tree does not build: ' + str(e)[:500], {'error': str(e)}, no_input=True)
         return chk.finish()
@@ -1035,7 +1104,8 @@ def main(tier, replay=None):
     rng = chk.rng
     cxs = []
     plans = [('main', lambda cx: scenario_main(cx, rng, 3, True, 25)), ('pool', lambda cx: scenario_pool_rerun(cx, rng)), ('zerosub', scenario_zerosub), ('stale', scenario_pool_stale_dir), ('flags', lambda cx: scenario_status_flags(cx, rng)),
-             ('zmany', scenario_zerosub_many), ('empty', scenario_empty), ('space', lambda cx: scenario_status_space(cx, rng))]
+             ('zmany', scenario_zerosub_many), ('empty', scenario_empty), ('space', lambda cx: scenario_status_space(cx, rng)),
+             ('hashsize', lambda cx: scenario_dup_hashsize(cx, rng, hasher))]
     if tier == 'thorough':
         plans += [('main%d' % i, (lambda cx, i=i: scenario_main(cx, rng, 2 + i % 4, i % 2 == 0, 60))) for i in range(1, 7)]
         plans += [('poolshare', lambda cx: scenario_pool_rerun(cx, rng, 3, share='/share/root'))]
